@@ -42,6 +42,12 @@ def parse_set(s: str):
     return out
 
 
+def unstorable(flags: str) -> bool:
+    """Keywords an MH folder can not hold (':' separates name and messages in .mh_sequences, which is an ASCII file): the server
+    may refuse them -- without any effect -- or find a way to store them."""
+    return any(":" in f or not f.isascii() for f in flags.split())
+
+
 class HState:
     def __init__(self, cfg: dict, prefix=None):
         """cfg: {prop, template, init: {mbox: [(uid,cid,flags,idate)...]}, uidnext:{}, mode, loopopts,
@@ -205,7 +211,7 @@ class HState:
                         self.fail("C04.seen-unseen-complement", {}, None, sorted(fl))
 
     # -- one command --------------------------------------------------------------------------------
-    def _cmd(self, sn: str, text, kind: str, uid=False, pre_flags=None, horizon=125.0):
+    def _cmd(self, sn: str, text, kind: str, uid=False, pre_flags=None, horizon=125.0, refused_pre=None):
         s = self.sess(sn)
         if s.task.done() or s.writer.closed or s.reader.at_eof():
             self.model.session(sn).dead = True
@@ -228,6 +234,10 @@ class HState:
                       s.pending_garbage()[:120].decode("latin-1"))
         if s.task.done():
             self.model.session(sn).dead = True
+        if refused_pre is not None and r is not None and r.typ in ("NO", "BAD"):
+            # the model was advanced assuming success: a command refused for its arguments changed nothing, and the FLAGS it
+            # flushed on the way are judged against the unchanged model
+            self._rollback(refused_pre)
         self._check_reported(sn, kind)
         if snap is not None and r is not None and r.typ in ("NO", "BAD"):
             after = self._snap()
@@ -515,7 +525,9 @@ class HState:
         pre, res, exp = self._model_try(lambda: self.model.append(name, cid, flags.split(), msgs.idate_epoch(idn)))
         data = msgs.make(cid)
         r, resps = self._cmd(sn, f"APPEND {_q(name)} ({flags}) {msgs.idate(idn)} ".encode() + imap_literal(data), "append")
-        st = self._status("C05", ev, r, exp, False)
+        st = self._status("C05", ev, r, exp, unstorable(flags))
+        if st == "refused" and exp == ("OK",):
+            self._rollback(pre)
         if st == "ok" and res is not None:
             mb, m = res
             code = [str(x) for x in (r.code or [])]
@@ -573,7 +585,7 @@ class HState:
             self.taint = "keyword-equals-MH-sequence-name"
         elems = parse_set(setstr)
         ms = self.model.session(sn)
-        refusal_ok = self._refusal_ok(sn, uid, elems)
+        refusal_ok = self._refusal_ok(sn, uid, elems) or unstorable(flags)
         mbm = self.model.mboxes.get(ms.selected) if ms.selected else None
         pre_flags = {m.uid: frozenset(m.flags) for m in mbm.msgs} if mbm else {}
         pre, tgt, exp = self._model_try(lambda: self.model.store(sn, elems, mode, flags.split(), uid))
@@ -583,7 +595,8 @@ class HState:
         self.check_recent_disk("before-store")
         rec0 = self._disk_recent(ms.selected) if ms.selected else None
         known0 = self._known_uid(ms.selected) if ms.selected else 0
-        r, resps = self._cmd(sn, f"{'UID ' if uid else ''}STORE {setstr} {item} ({flags})", "store", uid, pre_flags)
+        r, resps = self._cmd(sn, f"{'UID ' if uid else ''}STORE {setstr} {item} ({flags})", "store", uid, pre_flags,
+                             refused_pre=pre if (exp == ("OK",) and refusal_ok) else None)
         rec1 = self._disk_recent(ms.selected) if ms.selected else None
         if rec0 is not None and rec1 is not None:
             # (a delivery the server had not shown to know yet legitimately becomes \\Recent when the
